@@ -73,10 +73,7 @@ func replayViolation(prog *Program, spec *PropSpec, v *Violation, skipNative boo
 
 func doReplay(prog *Program, spec *PropSpec, rf *replayFile, dir string, skipNative bool) string {
 	// exactly the sites that were in force when the counterexample was found
-	arrivalSites.Range(func(k, _ interface{}) bool { arrivalSites.Delete(k); return true })
-	for _, site := range rf.Arrival {
-		arrivalSites.Store(site, true)
-	}
+	arrivalSet(rf.Arrival)
 	entry := prog.findEntry(rf.Entry)
 	if entry == nil {
 		return "ERROR entry-not-found"
